@@ -22,7 +22,7 @@ class Page:
     """What the server answers for one path."""
 
     def __init__(self, status=200, body=b'', ctype='text/html', headers=None, links=None,
-                 location=None, close=False, raw=None):
+                 location=None, close=False, raw=None, delay=None):
         self.status = status
         self.body = body
         self.ctype = ctype
@@ -31,6 +31,7 @@ class Page:
         self.location = location
         self.close = close
         self.raw = raw          # raw bytes to send instead of a formatted response
+        self.delay = delay      # fixed virtual delay of the answer (None = seeded jitter)
 
     def render(self):
         if self.raw is not None:
@@ -129,7 +130,9 @@ class SiteServer:
             conn.send(data)
             if page.close:
                 conn.close()
-        if self.jitter:
+        if page.delay is not None:
+            self.loop.call_later(page.delay, deliver)
+        elif self.jitter:
             self.loop.call_later(self.rng.uniform(0.001, 1.0), deliver)
         else:
             deliver()
